@@ -8,7 +8,8 @@
            write / writeln of an int or a bool through the runtime library (write_int, write_bool:
            the call protocol of eval_func_call), calls of the program's functions, return, if / else,
            while / for with break and continue, nested blocks with their own locals; expressions
-           from the `lowerbool` fragment.  Tied TEXTUALLY to the compiler by tools/corr_lowerstmt.py
+           from the `lowerbool` fragment (int operands include globals and the byte reads
+           `(x is byte) is int`, `(q is byte) is int`: OByte).  Tied TEXTUALLY to the compiler by tools/corr_lowerstmt.py
            (whole programs: state section, every function, labels and entry-guard constants).
    Source semantics (Codegen/LowerStmtProofs.v 1, independent of the lowering): stores, ieval /
            bevals (wrap-around, signed comparison, short-circuit), the big-step relation
